@@ -1135,3 +1135,41 @@ def no_move_from_callers_object(ctx, rid, functions, floor=1):
         ctx.ob(rid, not bad, f.loc(bad[0][0]) if bad else f.where, "%s moves from nothing it received as an lvalue reference" % f.name,
                "" if not bad else "std::move(%s): in this instantiation the argument is the caller's own object (lvalue); it is left "
                "moved-from although the caller keeps using it" % bad[0][1], fn=f.label, inst=f.qname)
+
+
+# ------------------------------------------------ clang-tidy cross-reference (thorough tier)
+TIDY_CHECKS = ("bugprone-use-after-move", "bugprone-move-forwarding-reference", "bugprone-unused-raii",
+               "bugprone-dangling-handle", "bugprone-undefined-memory-manipulation")
+_TIDY = {}
+
+
+def tidy_xref(ctx, rid, files):
+    """an independent engine over the same translation unit: clang-tidy 14 with a handful of bugprone checks that name
+    defect classes these properties care about (a moved-from value used again, std::move on a forwarding reference, an
+    RAII lock object destroyed immediately because it was not named).  Every warning inside one of the property's files
+    is reported; on the reference tree there is none.  Thorough tier only (a few seconds)."""
+    ctx.rule(rid, "cross-reference: clang-tidy (%s) reports nothing in the property's files" % ", ".join(TIDY_CHECKS), floor=1)
+    if "w" not in _TIDY:
+        out = []
+        for vp in ("0", "1"):
+            cmd = ["clang-tidy", "--checks=-*," + ",".join(TIDY_CHECKS), "--header-filter=.*/gmlc/.*",
+                   os.path.join(VERIF, "drivers", "inst.cpp"), "--", "-std=c++17", "-I" + os.path.join(REPO, "gmlc"),
+                   "-DVP=" + vp, "-DVERIF_IR", "-DENABLE_TRIPWIRE"]
+            try:
+                r = subprocess.run(cmd, stdout=subprocess.PIPE, stderr=subprocess.STDOUT, text=True, timeout=600)
+            except (OSError, subprocess.TimeoutExpired) as e:
+                _TIDY["err"] = str(e)
+                break
+            if "error:" in r.stdout and "warning:" not in r.stdout and "clang-diagnostic-error" in r.stdout:
+                _TIDY["err"] = [l for l in r.stdout.splitlines() if "error:" in l][0][:200]
+            for line in r.stdout.splitlines():
+                m = re.match(r"^(.*?):(\d+):\d+: warning: (.*) \[([a-z-]+)\]$", line)
+                if m and m.group(4) in TIDY_CHECKS:
+                    out.append((m.group(1), int(m.group(2)), m.group(3), m.group(4)))
+        _TIDY["w"] = sorted(set(out))
+    if _TIDY.get("err"):
+        ctx.broken("clang-tidy cross-reference could not run: %s" % _TIDY["err"])
+    mine = [w for w in _TIDY["w"] if any(w[0].endswith("/" + x) for x in files)]
+    for fpath, ln, msg, chk in mine:
+        ctx.ob(rid, False, "%s:%d" % (short(fpath), ln), "clang-tidy %s is silent" % chk, msg)
+    ctx.ob(rid, not mine, ", ".join(files), "clang-tidy cross-reference over %d file(s): %d warning(s)" % (len(files), len(mine)), "")
